@@ -293,7 +293,13 @@ def gen_matrix(rng, moltype, symmetric=False):
     return "flat", [[rng.choice([0, 1])] * n for _ in range(n)]
 
 
-def gen_gap(rng):
+EDGE_PENALTIES = [(0, 2), (20, 0), (0, 0), (0, 1), (5, 0), (1e-6, 1e-6), (0.001, 0.5), (300, 2), (20, 100), (250, 0)]
+
+
+def gen_gap(rng, edge=0.0):
+    """(gap open d, gap extend e); with probability `edge` a boundary pair: 0 (insertion, extension, both), tiny, huge"""
+    if rng.random() < edge:
+        return rng.choice(EDGE_PENALTIES)
     if rng.random() < 0.7:
         return rng.choice([1, 2, 5, 10, 20]), rng.choice([0.5, 1, 2, 5])
     return round(rng.uniform(0.1, 25), 2), round(rng.uniform(0.0, 6), 2)
@@ -606,7 +612,7 @@ def gen_pair_cases(rng, n, maxlen):
             s1 = "".join(rng.choice(amb) if rng.random() < 0.2 else c for c in s1)
             tag += "+ambig"
         matname, mat = gen_matrix(rng, moltype)
-        d, e = gen_gap(rng)
+        d, e = gen_gap(rng, edge=0.12)
         cases.append(dict(s1=s1, s2=s2, moltype=moltype, matname=matname, mat=mat, d=d, e=e, local=rng.random() < 0.4, tag=tag,
                           variants=rng.random() < 0.2))
     return cases
@@ -1098,6 +1104,7 @@ def check_align_to_ref(ctx, out, seqs, ref_choice, mat, d, e, moltype="dna"):
     out["evaluations"] += 1
     bump(out, "align_to_ref_nseqs", len(seqs))
     bump(out, "align_to_ref_moltype", f"{moltype}:{'default' if mat is None else 'custom'}")
+    bump(out, "align_to_ref_penalties", f"d={'0' if d == 0 else 'tiny' if d < 0.01 else 'huge' if d >= 100 else 'mid'},e={'0' if e == 0 else 'tiny' if e < 0.01 else 'huge' if e >= 100 else 'mid'}")
     names_in = list(seqs)
     bump(out, "a2r_ref_position", "longest" if ref_choice == "longest" else ("first" if ref_choice == names_in[0] else "last" if ref_choice == names_in[-1] else "middle"))
     try:
@@ -1140,7 +1147,8 @@ def check_align_to_ref(ctx, out, seqs, ref_choice, mat, d, e, moltype="dna"):
             add_failure(out, "spec", "align_to_ref does not keep a sequence's pairwise alignment with the reference",
                         dict(inp, seq=n, ref_name=ref_name, pairwise=[list(p) for p in pairs]), list(pairs[k]),
                         list(strip_common(rows[ref_name], rows[n])) + [dict(merged=rows)], sig=f"a2r:pairwise-not-kept:{c}")
-            bad = True
+            # the known merge defect explains the difference; any other difference is also judged under the user's model below
+            bad = c == "injected-column-inside-other-gap"
             break
     # every projected pairwise alignment is optimal under the USER's matrix and gap costs (independent oracle)
     if not bad and getattr(ctx, "driver", None) is not None:
@@ -1289,6 +1297,158 @@ def _caterpillar(names, rng):
 
 
 # --------------------------------------------------------------------------
+# histories: one mutable scoring dict / the same sequence objects / one app instance reused across calls
+# --------------------------------------------------------------------------
+def run_history(ctx, out, hist):
+    """hist = dict(moltype, pool=[seq strings], mat0, steps=[dict(edits=[[i,j,v],..], a, b, local, limit, d, e)]).
+    ONE scoring dict object and ONE set of sequence objects live through all steps; the dict is edited IN PLACE before a
+    step.  Every call is judged on its own: against a fresh call (fresh dict copy, fresh sequence objects) and against
+    the user-model oracle built from the dict's CURRENT content."""
+    import numpy
+    from cogent3.align import align, pairwise
+
+    moltype = hist["moltype"]
+    letters = DNA_ORDER(moltype)
+    mat = [list(r) for r in hist["mat0"]]
+    S = _sdict(moltype, mat)  # the one shared, mutable object
+    pool = [_mk(t, f"p{k}", moltype) for k, t in enumerate(hist["pool"])]
+    reqs, meta = [], []
+    old = pairwise.HIRSCHBERG_LIMIT
+    try:
+        for k, st in enumerate(hist["steps"]):
+            for i, j, v in st["edits"]:
+                mat[i][j] = mat[j][i] = v
+                S[letters[i], letters[j]] = v
+                S[letters[j], letters[i]] = v
+            a, b = pool[st["a"]], pool[st["b"]]
+            s1, s2 = hist["pool"][st["a"]], hist["pool"][st["b"]]
+            mode = "local" if st["local"] else "global"
+            inp = dict(history=hist, step=k)
+            out["evaluations"] += 1
+            bump(out, "history_step", f"{mode}:limit={st['limit']}:{'edited' if st['edits'] else 'same-dict'}")
+            pairwise.HIRSCHBERG_LIMIT = st["limit"]
+            try:
+                with numpy.errstate(all="ignore"):
+                    aln, score = align.classic_align_pairwise(a, b, S, st["d"], st["e"], st["local"], return_score=True)
+                rows = aln.to_dict()
+                got = dict(rows=[rows[a.name], rows[b.name]], score=float(score))
+            except Exception as ex:  # noqa: BLE001
+                got = dict(exc=type(ex).__name__)
+            pairwise.HIRSCHBERG_LIMIT = old
+            fresh = run_pairwise(s1, s2, moltype, [list(r) for r in mat], st["d"], st["e"], st["local"], 10**8)
+            fresh = dict(exc=fresh["exc"]) if "exc" in fresh else dict(rows=fresh["rows"], score=fresh["score"])
+            if ("exc" in got) != ("exc" in fresh) or ("exc" not in got and (
+                    abs(got["score"] - fresh["score"]) > _tol(fresh["score"]) or (st["local"] and got["rows"] != fresh["rows"]))):
+                add_failure(out, "spec", "a pairwise call depends on EARLIER calls (shared scoring dict edited in place / reused objects / changed "
+                            "HIRSCHBERG_LIMIT): it differs from the same call made with fresh objects", inp, fresh, got,
+                            sig=f"pw-history:differs-from-fresh-call:{mode}")
+                continue
+            if "exc" in got:
+                continue
+            uh = user_hmm(moltype, mat, st["d"], st["e"], s1, s2)
+            path = rows_to_path(uh, *got["rows"]) if uh is not None else None
+            if path is not None and getattr(ctx, "driver", None) is not None:
+                d1, d2 = got["rows"][0].replace("-", ""), got["rows"][1].replace("-", "")
+                i0, j0 = (s1.find(d1), s2.find(d2)) if st["local"] else (0, 0)
+                if i0 >= 0 and j0 >= 0:
+                    reqs.append(("viterbi", hmm_request(uh, st["local"], path, i0, j0)))
+                    meta.append((inp, mode, got))
+    finally:
+        pairwise.HIRSCHBERG_LIMIT = old
+    for (inp, mode, got), ul in zip(meta, ctx.driver.batch(reqs) if reqs else []):
+        uopt = None if ul.get("score") is None else unrat(ul["score"])
+        ups = None if ul.get("path_score") is None else unrat(ul["path_score"])
+        t = 1e-7 * max(1.0, abs(got["score"]))
+        if ups is None or abs(float(ups) - got["score"]) > t:
+            add_failure(out, "spec", "history: reported score is not the score of the returned alignment under the scoring dict's CURRENT content",
+                        inp, dict(user_model_path_score=None if ups is None else float(ups), user_model_optimum=None if uopt is None else float(uopt)),
+                        got, sig=f"pw-history:score-ne-user-model:{mode}")
+        elif uopt is not None and float(uopt - ups) > t:
+            add_failure(out, "spec", "history: a higher scoring path exists under the scoring dict's CURRENT content", inp,
+                        dict(user_model_optimum=float(uopt)), dict(got, path_score=float(ups)), sig=f"pw-history:suboptimal-under-user-model:{mode}")
+        else:
+            out["nontrivial"].add(("history", str(inp["history"]["pool"]), inp["step"], str(inp["history"]["steps"][inp["step"]])[:200]))
+
+
+def gen_history(rng):
+    moltype = "dna" if rng.random() < 0.7 else "protein"
+    letters = DNA if moltype == "dna" else PROT
+    n = len(DNA_ORDER(moltype))
+    base = _rand_seq(rng, letters, rng.randint(4, 14))
+    pool = [base, _mutate(rng, base, letters)[:16], _rand_seq(rng, letters, rng.randint(3, 12))]
+    mat0 = gen_matrix(rng, moltype, symmetric=True)[1]
+    steps = []
+    for k in range(rng.randint(3, 5)):
+        edits = []
+        if k and rng.random() < 0.7:
+            for _ in range(rng.randint(1, n)):
+                i, j = rng.randrange(n), rng.randrange(n)
+                edits.append([i, j, rng.randint(6, 12) if i == j else rng.randint(-9, 4)])
+        a, b = rng.sample(range(3), 2) if rng.random() < 0.6 or not steps else (steps[-1]["a"], steps[-1]["b"])
+        d, e = gen_gap(rng, edge=0.2) if (rng.random() < 0.4 or not steps) else (steps[-1]["d"], steps[-1]["e"])
+        steps.append(dict(edits=edits, a=a, b=b, local=rng.random() < 0.4, limit=rng.choice([10**8, 10**8, 0, 150]), d=d, e=e))
+    return dict(moltype=moltype, pool=pool, mat0=mat0, steps=steps)
+
+
+def app_history_checks(ctx, out, rng, n):
+    """ONE app instance called repeatedly with different inputs (and a changed HIRSCHBERG_LIMIT in between): every result must
+    equal that of a fresh instance on the same input"""
+    from cogent3 import get_app, make_unaligned_seqs
+    from cogent3.align import pairwise
+
+    def norm(res):
+        if type(res).__name__ == "NotCompleted":
+            return dict(notcompleted=str(getattr(res, "message", ""))[-120:])
+        d = dict(rows=res.to_dict())
+        if "align_params" in getattr(res, "info", {}) and "sw_score" in res.info["align_params"]:
+            d["sw_score"] = round(float(res.info["align_params"]["sw_score"]), 9)
+        return d
+
+    old = pairwise.HIRSCHBERG_LIMIT
+    for _ in range(n):
+        kind = rng.choice(["align_to_ref", "align_to_ref", "smith_waterman", "progressive_align"])
+        d, e = gen_gap(rng, edge=0.3)
+        if kind == "align_to_ref":
+            mk = lambda: get_app("align_to_ref", ref_seq=rng.choice(["longest"]), insertion_penalty=d, extension_penalty=e)  # noqa: E731
+            inputs = []
+            for _k in range(3):
+                kk = rng.randint(3, 5)
+                inputs.append(gen_seq_family(rng, kk, 12, DNA, gen_names(rng, kk)))
+        elif kind == "smith_waterman":
+            mk = lambda: get_app("smith_waterman", insertion_penalty=d, extension_penalty=e)  # noqa: E731
+            inputs = [dict(zip(("a", "b"), gen_pair(rng, DNA, 16)[1:])) for _ in range(3)]
+        else:
+            # unique_guides=True: by default the guide tree of the FIRST call is documented to be reused for later calls
+            mk = lambda: get_app("progressive_align", "HKY85", unique_guides=True)  # noqa: E731
+            inputs = [gen_seq_family(rng, rng.randint(3, 4), 10, DNA) for _ in range(3)]
+        inputs = [{k: v for k, v in i.items()} for i in inputs if len(i) >= 2]
+        try:
+            shared = mk()
+            hist = []
+            for k, seqs in enumerate(inputs):
+                lim = rng.choice([10**8, 0, 150])
+                out["evaluations"] += 1
+                bump(out, "app_history", kind)
+                pairwise.HIRSCHBERG_LIMIT = lim
+                got = norm(shared(make_unaligned_seqs(seqs, moltype="dna")))
+                # same limit for the fresh instance: equally good alignments may differ between the two code paths (ties)
+                want = norm(mk()(make_unaligned_seqs(seqs, moltype="dna")))
+                pairwise.HIRSCHBERG_LIMIT = old
+                hist.append(dict(seqs=seqs, limit=lim))
+                if got != want:
+                    add_failure(out, "spec", f"{kind}: one app instance called repeatedly gives a different result than a fresh instance on the same input",
+                                dict(app=kind, d=d, e=e, calls=list(hist)), want, got, sig=f"app-history:differs-from-fresh-instance:{kind}")
+                    break
+            else:
+                out["nontrivial"].add(("app-history", kind, str(inputs)[:300]))
+        except Exception as ex:  # noqa: BLE001
+            add_failure(out, "spec", f"{kind}: repeated calls of one app instance raised", dict(app=kind, d=d, e=e, inputs=inputs), "results", type(ex).__name__ + ": " + str(ex)[:100],
+                        sig=f"app-history:raised:{kind}")
+        finally:
+            pairwise.HIRSCHBERG_LIMIT = old
+
+
+# --------------------------------------------------------------------------
 # spec_check: the real code against the property
 # --------------------------------------------------------------------------
 def spec_check(ctx, budget):
@@ -1312,6 +1472,11 @@ def spec_check(ctx, budget):
         ctx.notes.append("driver unavailable: pairwise optimality checks skipped")
     # exhaustive small p2m domain: ref of length 2, two pairs with <=1 gap run each is covered by the random stream; plus seeded random
     p2m_checks(ctx, out, rng, 1000 * budget)
+    # histories: shared mutable scoring dict, reused sequence objects, changing HIRSCHBERG_LIMIT, reused app instances
+    if getattr(ctx, "driver", None) is not None:
+        for _ in range(40 * budget):
+            run_history(ctx, out, gen_history(rng))
+    app_history_checks(ctx, out, rng, 12 * budget)
     # apps
     LET = {"dna": DNA, "rna": "ACGU", "protein": PROT}
     for t in range(40 * budget):
@@ -1319,7 +1484,7 @@ def spec_check(ctx, budget):
         moltype = "dna" if rng.random() < 0.6 else rng.choice(["rna", "protein"])
         seqs = gen_seq_family(rng, k, 14, LET[moltype], gen_names(rng, k))
         mat = None if rng.random() < 0.4 else gen_matrix(rng, moltype, symmetric=True)[1]
-        d, e = rng.choice([(20, 2), (10, 2), (5, 1), (2, 1)])
+        d, e = rng.choice([(20, 2), (10, 2), (5, 1), (2, 1)]) if rng.random() < 0.5 else rng.choice(EDGE_PENALTIES)
         names = list(seqs)
         ref = ["longest", names[0], names[-1], names[len(names) // 2]][t % 4]
         check_align_to_ref(ctx, out, seqs, ref, mat, d, e, moltype)
@@ -1327,7 +1492,7 @@ def spec_check(ctx, budget):
         moltype = ["dna", "protein", "rna"][t % 3]
         tag, s1, s2 = gen_pair(rng, LET[moltype], 20)
         mat = None if rng.random() < 0.25 else gen_matrix(rng, moltype, symmetric=True)[1]
-        d, e = gen_gap(rng)
+        d, e = gen_gap(rng, edge=0.4)
         check_sw_app(ctx, out, s1, s2, moltype, mat, d, e, names=rng.choice([("a", "b"), ("seq1", "seq10"), ("x1", "x")]))
     for t in range(10 * budget):
         k = rng.randint(3, 6)
@@ -1395,6 +1560,9 @@ def replay(ctx, data):
     elif sig.startswith("a2r:"):
         ctx.driver = _drv()
         check_align_to_ref(ctx, out, inp["seqs"], inp["ref"], inp.get("mat"), inp["d"], inp["e"], inp.get("moltype", "dna"))
+    elif sig.startswith("pw-history:"):
+        ctx.driver = _drv()
+        run_history(ctx, out, inp["history"])
     elif sig.startswith("sw:"):
         ctx.driver = _drv()
         check_sw_app(ctx, out, inp["s1"], inp["s2"], inp["moltype"], inp.get("mat"), inp["d"], inp["e"], tuple(inp.get("names", ("a", "b"))))
